@@ -13,6 +13,7 @@ Variables lower upper : str -> str.
 Variable parse_tree : mapper -> tz -> res (option T * mapper * tz).
 Variable set_label : T -> option str -> T.
 Variable add_comments : T -> list str -> T.
+Variable vl : bool.
 Variable a1 : bool.
 Variable sl : bool.
 Variable fac : tns_factory.
@@ -76,7 +77,8 @@ Proof.
   destruct (str_eqb label K_SEMI); [assumption|].
   destruct (ns_get_taxon lower taxa label).
   - cbn [bind] in *. destruct (require_next_token z); cbn [bind] in *; try discriminate. apply IH. assumption.
-  - destruct n as [n|]; [|discriminate].
+  - destruct n as [n|];
+      [|cbn [bind] in *; destruct (require_next_token z); cbn [bind] in *; try discriminate; apply IH; assumption].
     assert (X : ((n <=? Z.of_nat (length taxa))%Z && negb (a1 && negb (is_nil taxa))) = false).
     { destruct ((n <=? Z.of_nat (length taxa))%Z && negb (a1 && negb (is_nil taxa))); [discriminate | reflexivity]. }
     assert (X2 : ((n <=? Z.of_nat (length taxa))%Z && negb (true && negb (is_nil taxa))) = false).
@@ -89,7 +91,7 @@ Lemma parse_taxlabels_12 : forall fuel k ns k',
   parse_taxlabels lower c1 fuel k ns = Ok k' -> parse_taxlabels lower c2 fuel k ns = Ok k'.
 Proof.
   intros fuel k ns k' H. unfold parse_taxlabels in *.
-  destruct (next_token (k_z k)) as [z1|e|]; cbn [bind] in *; try discriminate.
+  destruct (require_next_token (k_z k)) as [z1|e|]; cbn [bind] in *; try discriminate.
   destruct (taxlabels_loop lower c1 fuel z1 (ns_taxa_at k ns) (k_ntax k)) as [r|e|] eqn:E; cbn [bind] in H; try discriminate.
   rewrite (taxlabels_12 _ _ _ _ _ E). cbn [bind]. assumption.
 Qed.
@@ -160,11 +162,11 @@ Proof.
   destruct (zstep k2 (skip_to_semicolon fuel)); cbn [bind]; auto.
 Qed.
 
-Notation YTS cc := (y_trees_loop T lower upper parse_tree set_label add_comments cc).
+Notation YTS cc := (y_trees_loop T lower upper parse_tree set_label add_comments vl cc).
 Notation YTL := (y_tree_loop T upper parse_tree set_label add_comments).
-Notation YTB cc := (y_trees_block T lower upper parse_tree set_label add_comments cc et).
-Notation YBL cc := (y_blocks_loop T lower upper parse_tree set_label add_comments cc et).
-Notation YST cc := (y_items_from_stream T lower upper parse_tree set_label add_comments cc et).
+Notation YTB cc := (y_trees_block T lower upper parse_tree set_label add_comments vl cc et).
+Notation YBL cc := (y_blocks_loop T lower upper parse_tree set_label add_comments vl cc et).
+Notation YST cc := (y_items_from_stream T lower upper parse_tree set_label add_comments vl cc et).
 
 Definition yrel (a : yres T (core * regs)) (b : yres T (core * regs)) (g2 : regs) : Prop :=
   match a with
@@ -189,7 +191,7 @@ Proof.
   rewrite !ybind_ylift.
   destruct (zstep k (next_token_ucase upper)) as [k1|e|]; try exact Logic.I.
   destruct (otok_is (z_cur (k_z k1)) K_LINK).
-  { rewrite !ybind_ylift. destruct (parse_link upper (S f) (k_z k1)) as [[lt z2]|e|]; try exact Logic.I.
+  { rewrite !ybind_ylift. destruct (parse_link upper vl (S f) (k_z k1)) as [[lt z2]|e|]; try exact Logic.I.
     apply IH; assumption. }
   destruct (otok_is (z_cur (k_z k1)) K_TITLE).
   { rewrite !ybind_ylift. destruct (parse_title upper (k_z k1)) as [[bt z2]|e|]; try exact Logic.I.
